@@ -6,7 +6,7 @@ import ast
 import re
 
 from ..cfg import cfg_of
-from ..core import AnalysisError, call_name, unparse, walk_no_nested
+from ..core import inline_locals, AnalysisError, call_name, unparse, walk_no_nested
 from ..packs import ecc
 from ..report import Ctx
 
@@ -50,9 +50,12 @@ def restore_rule(ctx: Ctx, rule: str) -> None:
                 elif ra is None or arm is None:
                     targets.add(cfg.node_of(r))
             ok = bool(targets) and cfg.must_pass(a, targets, exits=(1, 2))
-            ctx.add(rule, f'{f.qualname}:{k.split(".")[-1]}({unparse(c.args[0])})', ok, (f.file, c.lineno),
+            # only a table known to be another one than the full data (a resample, the copy made at construction) makes this an accusation
+            known = re.search(r'with_replacement\(|\.fullData\b', unparse(inline_locals(f.node, c.args[0]))) is not None
+            ctx.add(rule, f'{f.qualname}:{k.split(".")[-1]}({unparse(c.args[0])})', ok if (ok or known) else None, (f.file, c.lineno),
                     f'the engine receives {unparse(c.args[0])}; every exit of {f.name} passes a {k.split(".")[-1]}({full[k]}) afterwards' if ok
-                    else f'the engine keeps {unparse(c.args[0])} after {f.name} returns: no {k.split(".")[-1]}({full[k]}) on every exit', detail=unparse(c))
+                    else (f'the engine keeps {unparse(c.args[0])} after {f.name} returns: no {k.split(".")[-1]}({full[k]}) on every exit' if known else f'{k.split(".")[-1]}({unparse(c.args[0])}): what is handed to the engine is not in a form the rule understands'),
+                    detail=unparse(c), positive=known and not ok)
     if n == 0:
         ctx.note(f'{rule}: no resample is handed to the engine any more')
 
@@ -85,8 +88,15 @@ def _roles(ctx: Ctx) -> None:
             bound = prog.bind_call(init, calls[0].value) or {}
             det = {k: unparse(v) for k, v in bound.items()}
             okc = det == {'dict_of_formulas': 'formulas', 'valid_keywords': names}
-        ctx.add('C04.R5', f'BIOGEME.__init__:{attr}', okc, (init.file, calls[0].lineno if calls else init.line),
-                f'{attr} = entry of the dictionary under one of {names}' if okc else f'{attr} is looked up with {det}: a formula given under a documented spelling is ignored', str(det))
+        wrong = None
+        if not okc and len(calls) == 1 and isinstance(det, dict) and det.get('dict_of_formulas') == 'formulas' and 'valid_keywords' in det:
+            wrong = f'{attr} is looked up under {det["valid_keywords"]} only, not under all of {names}: a formula given under another documented spelling is ignored'
+        elif not calls:
+            single = [a for a in walk_no_nested(init.node) if isinstance(a, ast.Assign) and unparse(a.targets[0]) == attr and re.fullmatch(r'(self\.)?formulas(\.get\(.+\)|\[.+\])', unparse(a.value))]
+            if single:
+                wrong = f'{attr} = {unparse(single[0].value)}: the entry is looked up under one spelling only, a formula given under another documented spelling ({names}) is ignored'
+        ctx.add('C04.R5', f'BIOGEME.__init__:{attr}', okc if (okc or wrong) else None, (init.file, calls[0].lineno if calls else init.line),
+                f'{attr} = entry of the dictionary under one of {names}' if okc else (wrong or f'the way {attr} is taken from a dictionary of formulas is not in the expected form (get_expression(formulas, {names}))'), str(det), positive=bool(wrong))
     ge = prog.func('dict_of_formulas', 'get_expression')
     ok = has(ge.node, """
 _FOUND = None
@@ -106,7 +116,15 @@ return dict_of_formulas[_FOUND]
     ctx.add('C04.R5', 'get_expression', ok, ge, 'every valid keyword is tried, two spellings at once are refused, the entry of the keyword found is returned' if ok else 'get_expression no longer returns the entry of the (single) valid keyword present', 'get_expression')
 
 
+#: obligations whose failure contradicts the property (rule, construct pattern, why); every other failure is 'not recognised'
+POSITIVE: list[tuple[str, str, str]] = [
+    ('C04.R1', r':self\.theC\.\w+\(', 'engine-call contract: an argument handed to the engine has another role than the slot the engine reads'),
+    ('C04.R4', r':set(Data|DataMap)\(', 'a resample handed to the engine is not replaced by the full data on some exit'),
+]
+
+
 def run(ctx: Ctx) -> None:
+    ctx.positive_table = list(POSITIVE)
     prog = ctx.prog
     ctx.rule('C04.R1', 'engine-call contract (ECC) for pyBiogeme: every argument of every call on the engine object has the role the engine reads in that slot '
              '(signatures, thread count, free/fixed values, literal ids, data, map, draws, missing-data code, sample size)')
@@ -154,7 +172,17 @@ return __ALL if _N == 0 else _N
         guard = [i for i in walk_no_nested(f.node) if isinstance(i, ast.If) and r in i.body]
         if t != fv:
             ok = ok and len(guard) == 1 and unparse(guard[0].test) == 'scaled'
-        ctx.add('C04.R3', f'BIOGEME.calculate_likelihood:{"scaled" if t != fv else "raw"}', ok, (f.file, r.lineno), what + ('' if ok else '; the scaled value is the engine value divided by the sample size'), t)
+        wrong = None
+        if not ok and t != fv:
+            # a quotient of the engine value by another count of the database
+            q = r.value
+            if isinstance(q, ast.BinOp) and isinstance(q.op, ast.Div) and unparse(q.left) == fv:
+                q = ast.BinOp(left=q.left, op=q.op, right=inline_locals(f.node, q.right))
+                den = q.right.args[0] if isinstance(q.right, ast.Call) and call_name(q.right) == 'float' and len(q.right.args) == 1 else q.right
+                m_ = re.fullmatch(r'self\.database\.(\w+)\(\)', unparse(den))
+                if m_ and m_.group(1) != 'get_sample_size':
+                    wrong = f'the scaled value is {fv} / {unparse(den)}: the divisor is not the sample size (get_sample_size(): the number of individuals for panel data)'
+        ctx.add('C04.R3', f'BIOGEME.calculate_likelihood:{"scaled" if t != fv else "raw"}', (ok if ok or wrong else None), (f.file, r.lineno), (what if ok else wrong or f'{what}: the return of calculate_likelihood is not in the expected form (engine value, or engine value / sample size under `scaled`)'), t, positive=bool(wrong))
     g = B.methods['calculate_likelihood_and_derivatives']
     divisors = {unparse(n.right) for n in walk_no_nested(g.node) if isinstance(n, ast.BinOp) and isinstance(n.op, ast.Div) and isinstance(n.right, ast.Name)}
     ss = [n for n in walk_no_nested(g.node) if isinstance(n, ast.Assign) and 'get_sample_size' in unparse(n.value) and isinstance(n.targets[0], ast.Name) and n.targets[0].id in divisors]
